@@ -74,4 +74,348 @@ theorem C19_running_fresh_result (n : Nucleo) (k : Nat) (hrun : n.worker.running
   simp only [hr, Bool.false_eq_true, if_false, hs, Snapshot.update]
   exact ⟨trivial, hk, trivial, trivial⟩
 
+
+/-! ## `running = false`: the state invariant over every history -/
+
+/-- what every background run does to the worker, whatever it observes: it marks itself as run and keeps the
+    pattern and the stream handle it was started with -/
+structure RunLike (run : Worker → Worker) : Prop where
+  running : ∀ w, (run w).running = true
+  pattern : ∀ w, (run w).pattern = w.pattern
+  stream : ∀ w, (run w).stream = w.stream
+
+def Uncancelled (run : Worker → Worker) : Prop := ∀ w, (run w).wasCanceled = false
+
+/-- the state invariant behind the `running = false` clause -/
+structure Inv19 (n : Nucleo) : Prop where
+  /-- a finished run that has been looked at leaves the worker marked idle -/
+  idle : n.pending = none → n.worker.running = false
+  /-- with no run in flight on a live stream, the snapshot is the worker's result -/
+  mirror : n.pending = none → n.state = .fresh →
+    n.snapshot.itemCount = n.worker.itemCount ∧ n.snapshot.pattern = n.worker.pattern
+  /-- an unchanged pattern on a live stream is the pattern the worker was (last) started with -/
+  pat : n.status = .unchanged → n.state = .fresh → n.worker.pattern = n.pattern
+
+theorem Inv19.new : Inv19 Nucleo.new := ⟨fun _ => rfl, fun _ h => by simp [Nucleo.new] at h, fun _ h => by simp [Nucleo.new] at h⟩
+
+theorem Inv19.restart {n : Nucleo} (h : Inv19 n) (c : Bool) : Inv19 (n.restart c) :=
+  ⟨h.idle, fun _ hs => by simp [Nucleo.restart] at hs, fun _ hs => by simp [Nucleo.restart] at hs⟩
+
+theorem Inv19.reparse {n : Nucleo} (h : Inv19 n) (p : Nat) (s : PStatus) (hs : s ≠ .unchanged) : Inv19 (n.reparse p s) :=
+  ⟨h.idle, h.mirror, fun hu _ => absurd hu hs⟩
+
+theorem Inv19.addInjector {n : Nucleo} (h : Inv19 n) (k : Nat) : Inv19 (n.addInjector k) := ⟨h.idle, h.mirror, h.pat⟩
+theorem Inv19.dropInjector {n : Nucleo} (h : Inv19 n) (k : Nat) : Inv19 (n.dropInjector k) := ⟨h.idle, h.mirror, h.pat⟩
+theorem Inv19.cloneInjector {n : Nucleo} (h : Inv19 n) (a b : Nat) : Inv19 (n.cloneInjector a b) := by
+  unfold Nucleo.cloneInjector; split
+  · exact ⟨h.idle, h.mirror, h.pat⟩
+  · exact h
+
+/-- the state a `tick_inner` that holds the lock works on: the run in flight (if any) has been joined -/
+structure Joined (m : Nucleo) : Prop where
+  noPending : m.pending = none
+  /-- either an un-looked-at, un-cancelled result, or an idle worker mirrored by the snapshot (on a live stream) -/
+  fresh : m.state = .fresh →
+    (m.worker.running = true ∧ m.worker.wasCanceled = false) ∨
+    (m.worker.running = false ∧ m.snapshot.itemCount = m.worker.itemCount ∧ m.snapshot.pattern = m.worker.pattern)
+
+/-- **one `tick_inner` that holds the lock and reports `running = false`** leaves the snapshot equal to the worker's
+    result, whose processed count is at least the counter it read -/
+theorem tickInnerLocked_done (m : Nucleo) (k : Nat) (hj : Joined m) (hf : m.state = .fresh)
+    (h : (tickInnerLocked m false .unchanged k).2.running = false) :
+    let m' := (tickInnerLocked m false .unchanged k).1
+    m'.pending = none ∧ m'.worker.running = false ∧ m'.state = .fresh ∧
+    m'.snapshot.itemCount = m'.worker.itemCount ∧ m'.snapshot.pattern = m'.worker.pattern ∧ k ≤ m'.snapshot.itemCount ∧
+    m'.worker.pattern = m.worker.pattern ∧ m'.status = m.status ∧ m'.pattern = m.pattern := by
+  have hk := (C19_running_lock m false .unchanged k h).2.1
+  have hr : ¬ ((false || decide (k > m.worker.itemCount)) = true) := by simp; omega
+  unfold tickInnerLocked
+  simp only [hr, Bool.false_eq_true, if_false]
+  rcases hj.fresh hf with ⟨h1, h2⟩ | ⟨h1, h2, h3⟩
+  · have hs : m.snapAfter = m.snapshot.update m.worker := by simp [Nucleo.snapAfter, h1, h2, hf, NState.canceled]
+    have hw : m.workerAfter = { m.worker with running := false } := by simp [Nucleo.workerAfter, h1]
+    simp only [hs, hw, Snapshot.update, Worker.itemCount]
+    exact ⟨hj.noPending, by trivial, hf, by trivial, by trivial, hk, by trivial, by trivial, by trivial⟩
+  · have hs : m.snapAfter = m.snapshot := by simp [Nucleo.snapAfter, h1]
+    have hw : m.workerAfter = m.worker := by simp [Nucleo.workerAfter, h1]
+    simp only [hs, hw]
+    exact ⟨hj.noPending, h1, hf, h2, h3, by rw [h2]; exact hk, by trivial, by trivial, by trivial⟩
+
+theorem joinRun_fields (n : Nucleo) (run : Worker → Worker) :
+    (n.joinRun run).state = n.state ∧ (n.joinRun run).status = n.status ∧ (n.joinRun run).pattern = n.pattern ∧
+    (n.joinRun run).pending = none ∧ (n.joinRun run).snapshot = n.snapshot ∧ (n.joinRun run).cur = n.cur := by
+  unfold Nucleo.joinRun
+  cases hp : n.pending with
+  | none => simp [hp]
+  | some p => simp
+
+theorem joinRun_joined (n : Nucleo) (h : Inv19 n) (run : Worker → Worker) (hr : RunLike run) (hu : Uncancelled run) :
+    Joined (n.joinRun run) ∧ (n.joinRun run).worker.pattern = n.worker.pattern := by
+  have hf := joinRun_fields n run
+  refine ⟨⟨hf.2.2.2.1, ?_⟩, ?_⟩
+  · intro hfr
+    rw [hf.1] at hfr
+    unfold Nucleo.joinRun
+    cases hp : n.pending with
+    | none =>
+      simp only [Option.isSome_none, Bool.false_eq_true, if_false]
+      right
+      exact ⟨h.idle hp, h.mirror hp hfr⟩
+    | some p =>
+      simp only [Option.isSome_some, if_true]
+      left
+      exact ⟨hr.running _, hu _⟩
+  · unfold Nucleo.joinRun
+    split
+    · exact hr.pattern _
+    · rfl
+
+/-- a non-cancelling `tick_inner` that holds the lock, from a joined state on a live stream with an unchanged
+    pattern: the invariant is re-established, and `running = false` comes with the snapshot facts -/
+theorem locked_step (m : Nucleo) (k : Nat) (hj : Joined m) (hf : m.state = .fresh) (hp : m.worker.pattern = m.pattern) :
+    Inv19 (tickInnerLocked m false .unchanged k).1 ∧
+    (tickInnerLocked m false .unchanged k).1.pattern = m.pattern ∧
+    ((tickInnerLocked m false .unchanged k).2.running = false →
+      (tickInnerLocked m false .unchanged k).1.snapshot.pattern = m.pattern ∧
+      k ≤ (tickInnerLocked m false .unchanged k).1.snapshot.itemCount ∧
+      (tickInnerLocked m false .unchanged k).1.snapshot.itemCount = (tickInnerLocked m false .unchanged k).1.worker.itemCount) := by
+  by_cases hr : (tickInnerLocked m false .unchanged k).2.running = false
+  · obtain ⟨d1, d2, d3, d4, d5, d6, d7, d8, d9⟩ := tickInnerLocked_done m k hj hf hr
+    refine ⟨⟨fun _ => d2, fun _ _ => ⟨d4, d5⟩, fun _ _ => by rw [d7, d9]; exact hp⟩, d9, fun _ => ⟨by rw [d5, d7]; exact hp, d6, d4⟩⟩
+  · refine ⟨?_, ?_, fun h => absurd h hr⟩
+    · -- the spawning branch
+      unfold tickInnerLocked at hr ⊢
+      by_cases hc : (false || decide (k > m.worker.itemCount)) = true
+      · simp only [hc, if_true]
+        exact ⟨fun hpn => by simp at hpn, fun hpn => by simp at hpn, fun _ _ => rfl⟩
+      · simp [hc] at hr
+    · unfold tickInnerLocked; split <;> rfl
+
+/-- what the environment guarantees about the background runs a tick joins: they are runs (`RunLike`), and a run that
+    no tick cancelled and no restart followed did not observe the cancel flag — the flag is raised only by a
+    cancelling tick (which then waits for the run) and by `restart` (which makes the next tick a cancelling one) -/
+structure TickEnv (n : Nucleo) (o : TickOracle) : Prop where
+  run0 : RunLike o.run0
+  run1 : RunLike o.run1
+  unc1 : Uncancelled o.run1
+  unc0 : n.tickCancels = false → Uncancelled o.run0
+
+/-- the counter value read by the `tick_inner` that decides `running` -/
+def TickOracle.decidingCount (o : TickOracle) (n : Nucleo) : Nat := if n.tickCancels then o.count2 else o.count1
+
+theorem state_fresh_of_not_canceled (s : NState) (h : s.canceled = false) : s = .fresh := by
+  cases s <;> simp [NState.canceled] at h ⊢
+
+/-- the first `tick_inner` of a cancelling tick always spawns: afterwards a run is pending on a live stream,
+    started with the current pattern, and the status is reset -/
+theorem tickCancelFirst_facts (n : Nucleo) (o : TickOracle) :
+    (n.tickCancelFirst o).1.state = .fresh ∧ (n.tickCancelFirst o).1.pending.isSome = true ∧
+    (n.tickCancelFirst o).1.worker.pattern = n.pattern ∧ (n.tickCancelFirst o).1.pattern = n.pattern ∧
+    (n.tickCancelFirst o).1.status = .unchanged := by
+  unfold Nucleo.tickCancelFirst tickInnerLocked
+  simp only [Bool.true_or, if_true]
+  refine ⟨by trivial, by trivial, ?_, ?_, ?_⟩
+  · exact (joinRun_fields _ o.run0).2.2.1
+  · exact (joinRun_fields _ o.run0).2.2.1
+  · exact (joinRun_fields _ o.run0).2.1
+
+/-- the second `tick_inner` of a cancelling tick -/
+theorem tickSecond_step (n2 : Nucleo) (o : TickOracle) (r1 : RunLike o.run1) (u1 : Uncancelled o.run1)
+    (hf : n2.state = .fresh) (hp : n2.pending.isSome = true) (hw : n2.worker.pattern = n2.pattern) :
+    Inv19 (n2.tickSecond o).1 ∧ (n2.tickSecond o).1.pattern = n2.pattern ∧
+    ((n2.tickSecond o).2.running = false →
+      (n2.tickSecond o).1.snapshot.pattern = n2.pattern ∧ o.count2 ≤ (n2.tickSecond o).1.snapshot.itemCount ∧
+      (n2.tickSecond o).1.snapshot.itemCount = (n2.tickSecond o).1.worker.itemCount) := by
+  unfold Nucleo.tickSecond
+  by_cases hl : o.lock2 = true
+  · simp only [hl, if_true]
+    have hfj := joinRun_fields n2 o.run1
+    have hj2 : Joined (n2.joinRun o.run1) := by
+      refine ⟨hfj.2.2.2.1, fun _ => Or.inl ?_⟩
+      unfold Nucleo.joinRun
+      simp only [hp, if_true]
+      exact ⟨r1.running _, u1 _⟩
+    have hp2 : (n2.joinRun o.run1).worker.pattern = (n2.joinRun o.run1).pattern := by
+      rw [hfj.2.2.1]
+      unfold Nucleo.joinRun
+      simp only [hp, if_true]
+      rw [r1.pattern]; exact hw
+    have ls := locked_step (n2.joinRun o.run1) o.count2 hj2 (by rw [hfj.1]; exact hf) hp2
+    rw [hfj.2.2.1] at ls
+    exact ls
+  · simp only [hl, Bool.false_eq_true, if_false]
+    unfold tickInnerTimeout
+    refine ⟨⟨?_, ?_, ?_⟩, rfl, fun hh => by simp at hh⟩
+    · intro hpn; simp only at hpn; rw [hpn] at hp; simp at hp
+    · intro hpn; simp only at hpn; rw [hpn] at hp; simp at hp
+    · intro _ _; exact hw
+
+/-- the only `tick_inner` of a non-cancelling tick -/
+theorem tickPlain_step (n : Nucleo) (h : Inv19 n) (o : TickOracle) (r0 : RunLike o.run0) (u0 : Uncancelled o.run0)
+    (hst : n.status = .unchanged) (hf : n.state = .fresh) :
+    Inv19 (n.tickPlain o).1 ∧ (n.tickPlain o).1.pattern = n.pattern ∧
+    ((n.tickPlain o).2.running = false →
+      (n.tickPlain o).1.snapshot.pattern = n.pattern ∧ o.count1 ≤ (n.tickPlain o).1.snapshot.itemCount ∧
+      (n.tickPlain o).1.snapshot.itemCount = (n.tickPlain o).1.worker.itemCount) := by
+  unfold Nucleo.tickPlain
+  split
+  · unfold tickInnerTimeout
+    exact ⟨⟨h.idle, h.mirror, h.pat⟩, rfl, fun hh => by simp at hh⟩
+  · have hfj := joinRun_fields n o.run0
+    have hj := joinRun_joined n h o.run0 r0 u0
+    have hp : (n.joinRun o.run0).worker.pattern = (n.joinRun o.run0).pattern := by
+      rw [hj.2, hfj.2.2.1]; exact h.pat hst hf
+    have ls := locked_step _ o.count1 hj.1 (by rw [hfj.1]; exact hf) hp
+    rw [hfj.2.2.1] at ls
+    exact ls
+
+/-- **one `tick`**: the invariant is preserved, the current pattern is not touched, and if it reports
+    `running = false` the snapshot carries the current pattern and accounts for at least as many items as the
+    reservation counter showed when the deciding `tick_inner` read it -/
+theorem Inv19.tick {n : Nucleo} (h : Inv19 n) (o : TickOracle) (env : TickEnv n o) :
+    Inv19 (n.tick o).1 ∧ (n.tick o).1.pattern = n.pattern ∧
+    ((n.tick o).2.running = false →
+      (n.tick o).1.snapshot.pattern = n.pattern ∧ o.decidingCount n ≤ (n.tick o).1.snapshot.itemCount ∧
+      (n.tick o).1.snapshot.itemCount = (n.tick o).1.worker.itemCount) := by
+  unfold Nucleo.tick TickOracle.decidingCount
+  simp only
+  have hc0 : ({ n with shouldNotify := false } : Nucleo).tickCancels = n.tickCancels := rfl
+  rw [hc0]
+  have h0 : Inv19 ({ n with shouldNotify := false } : Nucleo) := ⟨h.idle, h.mirror, h.pat⟩
+  by_cases hc : n.tickCancels = true
+  · simp only [hc, if_true]
+    obtain ⟨f1, f2, f3, f4, f5⟩ := tickCancelFirst_facts ({ n with shouldNotify := false } : Nucleo) o
+    have st := tickSecond_step _ o env.run1 env.unc1 f1 f2 (by rw [f3, f4])
+    rw [f4] at st
+    exact st
+  · have hc' : n.tickCancels = false := by simpa using hc
+    simp only [hc', Bool.false_eq_true, if_false]
+    have hst : n.status = .unchanged ∧ n.state = .fresh := by
+      unfold Nucleo.tickCancels at hc'
+      simp only [Bool.or_eq_false_iff, ne_eq, decide_eq_false_iff_not, Decidable.not_not] at hc'
+      exact ⟨by simpa using hc'.1, state_fresh_of_not_canceled _ hc'.2⟩
+    exact tickPlain_step _ h0 o env.run0 (env.unc0 hc') hst.1 hst.2
+
+/-! ## every history -/
+
+/-- the requirements on the environment, event by event (they depend on the state the event meets) -/
+def EvOk19 (n : Nucleo) : Ev → Prop
+  | .tick o => TickEnv n o
+  | .reparse _ s => s ≠ .unchanged        -- `MultiPattern::reparse` always marks the column as changed
+  | _ => True
+
+def okHist : Nucleo → List Ev → Prop
+  | _, [] => True
+  | n, e :: es => EvOk19 n e ∧ okHist (applyEv n e) es
+
+theorem Inv19.step {n : Nucleo} (h : Inv19 n) (e : Ev) (hok : EvOk19 n e) : Inv19 (Nu.applyEv n e) := by
+  cases e with
+  | inj k => exact h.addInjector k
+  | clone a b => exact h.cloneInjector a b
+  | drop k => exact h.dropInjector k
+  | restart c => exact h.restart c
+  | reparse p s => exact h.reparse p s hok
+  | tick o => exact (h.tick o hok).1
+
+theorem Inv19.history : ∀ (evs : List Ev) (n : Nucleo), Inv19 n → okHist n evs → Inv19 (evs.foldl Nu.applyEv n) := by
+  intro evs
+  induction evs with
+  | nil => intro n h _; exact h
+  | cons e es ih =>
+    intro n h hok
+    simp only [List.foldl_cons]
+    exact ih _ (h.step e hok.1) hok.2
+
+/-- **after every history of injector(), clone, drop, reparse, restart(true|false) and tick (completing or timing
+    out), a tick that reports `running = false` leaves a snapshot that carries the matcher's current pattern and
+    accounts for at least as many items as the reservation counter showed when that tick read it** (every push that
+    completed before the call began had already advanced the counter) -/
+theorem C19_running_history (evs : List Ev) (hok : okHist Nucleo.new evs) (o : TickOracle)
+    (env : TickEnv (evs.foldl applyEv Nucleo.new) o)
+    (h : ((evs.foldl applyEv Nucleo.new).tick o).2.running = false) :
+    ((evs.foldl applyEv Nucleo.new).tick o).1.snapshot.pattern = ((evs.foldl applyEv Nucleo.new).tick o).1.pattern ∧
+    o.decidingCount (evs.foldl applyEv Nucleo.new) ≤ ((evs.foldl applyEv Nucleo.new).tick o).1.snapshot.itemCount := by
+  have inv := Inv19.history evs Nucleo.new Inv19.new hok
+  have t := inv.tick o env
+  have r := t.2.2 h
+  exact ⟨by rw [r.1, t.2.1], r.2.1⟩
+
+/-! ## the model's `Worker.run` satisfies the run assumptions -/
+
+theorem processTrivial_fields (w : Worker) (seen : Nat → Option Item) (c : Nat) :
+    (processTrivial w seen c).running = w.running ∧ (processTrivial w seen c).pattern = w.pattern ∧
+    (processTrivial w seen c).wasCanceled = w.wasCanceled := by
+  unfold processTrivial; split <;> exact ⟨rfl, rfl, rfl⟩
+
+theorem resetMatches_fields (w : Worker) (seen : Nat → Option Item) :
+    (resetMatches w seen).running = w.running ∧ (resetMatches w seen).pattern = w.pattern ∧
+    (resetMatches w seen).wasCanceled = w.wasCanceled := by
+  unfold resetMatches; exact ⟨rfl, rfl, rfl⟩
+
+theorem begin_fields (w : Worker) (c : Bool) :
+    (w.begin c).running = true ∧ (w.begin c).pattern = w.pattern ∧ (w.begin c).wasCanceled = false := by
+  unfold Worker.begin; split <;> exact ⟨rfl, rfl, rfl⟩
+
+variable (score : Nat → Item → Option Nat) (len : Item → Nat)
+
+theorem rescore_fields (w : Worker) (o : Obs) :
+    (rescore score w o).1.running = w.running ∧ (rescore score w o).1.pattern = w.pattern ∧
+    (rescore score w o).1.wasCanceled = w.wasCanceled := ⟨rfl, rfl, rfl⟩
+
+theorem processNew_fields (w : Worker) (o : Obs) :
+    (processNew score w o).1.running = w.running ∧ (processNew score w o).1.pattern = w.pattern ∧
+    (processNew score w o).1.wasCanceled = w.wasCanceled := by
+  unfold processNew; simp only; split <;> exact ⟨rfl, rfl, rfl⟩
+
+theorem scorePass_fields (w : Worker) (st : PStatus) (o : Obs) :
+    (Worker.scorePass score w st o).1.running = w.running ∧ (Worker.scorePass score w st o).1.pattern = w.pattern ∧
+    (Worker.scorePass score w st o).1.wasCanceled = w.wasCanceled := by
+  unfold Worker.scorePass
+  simp only
+  generalize hw' : (if st = PStatus.rescore then resetMatches w o.seen0 else w) = w'
+  have hf : w'.running = w.running ∧ w'.pattern = w.pattern ∧ w'.wasCanceled = w.wasCanceled := by
+    rw [← hw']; split
+    · exact resetMatches_fields w o.seen0
+    · exact ⟨rfl, rfl, rfl⟩
+  split
+  · have a := rescore_fields score (processTrivial w' o.seen1 o.count) o
+    have b := processTrivial_fields w' o.seen1 o.count
+    exact ⟨a.1.trans (b.1.trans hf.1), a.2.1.trans (b.2.1.trans hf.2.1), a.2.2.trans (b.2.2.trans hf.2.2)⟩
+  · have a := processNew_fields score w' o
+    exact ⟨a.1.trans hf.1, a.2.1.trans hf.2.1, a.2.2.trans hf.2.2⟩
+
+/-- every run of the model is a run in the sense of `RunLike`; it is un-cancelled exactly when it did not observe
+    the cancel flag -/
+theorem Worker.run_runLike (st : PStatus) (cl pe : Bool) (o : Obs) :
+    RunLike (fun w => (Worker.run score len w st cl pe o).1) := by
+  refine ⟨?_, ?_, ?_⟩
+  · intro w
+    unfold Worker.run
+    split
+    · rw [(processTrivial_fields _ _ _).1, (resetMatches_fields _ _).1]; exact (begin_fields w cl).1
+    · unfold Worker.finish
+      have hs := scorePass_fields score (w.begin cl) st o
+      split <;> simp only [hs.1, (begin_fields w cl).1]
+  · intro w
+    unfold Worker.run
+    split
+    · rw [(processTrivial_fields _ _ _).2.1, (resetMatches_fields _ _).2.1]; exact (begin_fields w cl).2.1
+    · unfold Worker.finish
+      have hs := scorePass_fields score (w.begin cl) st o
+      split <;> simp only [hs.2.1, (begin_fields w cl).2.1]
+  · intro w; exact run_stream score len w st cl pe o
+
+
+/-- the hypotheses are satisfiable and the conclusion is reached: an injector, a first tick whose run completes in
+    time, then a tick that reports `running = false` -/
+example :
+    let run : Worker → Worker := fun w => { w with running := true, wasCanceled := false }
+    let o : TickOracle := { count1 := 0, count2 := 0, lock1 := true, lock2 := true, run0 := run, run1 := run }
+    okHist Nucleo.new [.inj 1, .tick o] ∧ TickEnv ([Ev.inj 1, .tick o].foldl applyEv Nucleo.new) o ∧
+    (([Ev.inj 1, .tick o].foldl applyEv Nucleo.new).tick o).2.running = false := by
+  intro run o
+  have rl : RunLike run := ⟨fun _ => rfl, fun _ => rfl, fun _ => rfl⟩
+  have env : ∀ n, TickEnv n o := fun n => ⟨rl, rl, fun _ => rfl, fun _ _ => rfl⟩
+  exact ⟨⟨trivial, env _, trivial⟩, env _, by decide⟩
+
 end NucleoVerif.Nu
